@@ -233,6 +233,18 @@ def run(ctx):
         ctx.fail('C04.R5', f.key, f.site, f.message)
     if not _lifted:
         ctx.ok('C04.R5', 'kmip/services/server/engine.py', 'every state store / delete of the three lifecycle handlers is committed before the handler returns')
+    # ---------------- R9 a state change that is refused is not made (lifted from C08.R3)
+    ctx.rule('C04.R7', 'a lifecycle change happens entirely or not at all: in a handler that stores a state (Activate, Revoke) no raise is reachable while the stored object carries an uncommitted change (lifted from C08.R3): the batch keeps one database session and never rolls back, so the state assigned before a refusal (e.g. Revoke rejecting a compromise date after it set the state) is seen by the following items - Destroy then accepts an object that is still Active in the store - and is written out by the next commit although the item reported failure')
+    _store_roots = {e['ctx'][0] for e in ai.events if e['kind'] == 'state_store'}
+    _bad9 = {}
+    for e in ai.events:
+        if e['kind'] == 'raise' and e['ctx'][0] in _store_roots and not e['in_handler'] and (set(e['state']['dirty']) & {'loaded', 'mixed', 'unknown'}):
+            _bad9.setdefault((e['ctx'][0], e['fn'], e['exc']), e)
+    for (root9, fn9, exc9), e in sorted(_bad9.items(), key=str):
+        ctx.fail('C04.R7', 'KmipEngine.%s|raise %s with a state change pending|via %s' % (fn9, exc9, root9), '%s:%s KmipEngine.%s' % (ENGINE, e['line'], fn9),
+                 '%s is raised in %s while the loaded object carries an uncommitted change (its state was assigned on this path): the refusal leaves the new state in the session of the batch' % (exc9, root9))
+    if not _bad9:
+        ctx.ok('C04.R7', ENGINE, 'no raise after a state store and before its commit in %s' % sorted(_store_roots))
     # ---------------- R6 (lifted from C05.R3) the mask the guards test is exactly the stored one
     ctx.rule('C04.R6', 'the usage mask that the use guards test is exactly the set of flags whose bit is set in the stored integer (UsageMaskType.process_result_value, lifted from C05.R3): a decoder that widens the mask would let every use guard pass')
     from ..report import Ctx as _LCtx2
